@@ -672,7 +672,20 @@ impl Prop for C18 {
             1 => 3 + rng.usize(10),
             _ => 8 + rng.usize(22),
         };
-        let ops: Vec<Op> = (0..n).map(|_| gen_op(rng)).collect();
+        let mut ops: Vec<Op> = (0..n).map(|_| gen_op(rng)).collect();
+        if rng.chance(1, 25) {
+            // big mode: more than 16 entries in one directory, a content larger than 64 KiB
+            let dir = gen_dir(rng);
+            let mut pre: Vec<Op> = (0..17 + rng.usize(8)).map(|k| Op::Write(format!("{}/n{}.txt", dir, k), format!("c{}", k))).collect();
+            pre.push(Op::Write(format!("{}/big.dat", dir), "0123456789abcdef".repeat(4200)));
+            pre.push(Op::Glob(format!("{}/*", dir)));
+            pre.push(Op::Glob(format!("{}/**/*.txt", ROOT)));
+            pre.push(Op::Cp(format!("{}/big.dat", dir), format!("{}/copy/big2.dat", dir)));
+            pre.push(Op::Size(format!("{}/copy/big2.dat", dir)));
+            pre.extend(ops.drain(..));
+            pre.push(Op::Rm(dir.clone(), true));
+            ops = pre;
+        }
         let torn = if rng.chance(1, 5) {
             let writes: Vec<usize> = ops.iter().enumerate().filter(|(_, o)| matches!(o, Op::Write(_, t) | Op::Append(_, t) if t.len() > 3)).map(|(i, _)| i).collect();
             if writes.is_empty() { None } else { Some((*rng.pick(&writes), 1 + rng.below(3))) }
